@@ -93,6 +93,25 @@ Definition interp (x : Q) (l : table) : pen :=
   | (x0, _) :: _ => if Qlt_bool x x0 then PInf else interp_seg x l
   end.
 
+(* numpy.interp with explicit `left` / `right` keyword values; None = the keyword is absent (numpy then answers the first /
+   last ordinate).  `interp` above is the instance left = right = inf that Transceiver._calc_penalty asks for. *)
+Fixpoint interp_seg_gen (right : option pen) (x : Q) (l : table) : pen :=
+  match l with
+  | [] => PInf
+  | (x0, y0) :: t =>
+      match t with
+      | [] => if Qeq_bool x x0 then PFin y0 else match right with Some p => p | None => PFin y0 end
+      | (x1, y1) :: _ =>
+          if Qlt_bool x x1 then PFin (y0 + (x - x0) * ((y1 - y0) / (x1 - x0))) else interp_seg_gen right x t
+      end
+  end.
+Definition interp_gen (left right : option pen) (x : Q) (l : table) : pen :=
+  match l with
+  | [] => PInf
+  | (x0, y0) :: _ =>
+      if Qlt_bool x x0 then match left with Some p => p | None => PFin y0 end else interp_seg_gen right x l
+  end.
+
 (* the three tables of a mode as listed in the equipment file; [] = impairment not listed (no entry in the dict) *)
 Record tables := mkT { t_cd : table; t_pmd : table; t_pdl : table }.
 Definition one_pen (raw : table) (v : Q) : pen :=
